@@ -778,6 +778,8 @@ class ET(Inverter):
                 raise ValueError()
 
             eco_mode: EcoMode | Sensor = self._settings.get('eco_mode_1')
+            if eco_mode is None:
+                raise ValueError('Unknown setting "eco_mode_1"')
             # Load the current values to try to detect schedule type
             try:
                 await self._read_sensor(eco_mode)
